@@ -104,6 +104,10 @@ def gen_cases(tier, seed):
         for wrapped in (0, 1):
             cases.append({"id": "signed-%s-%s" % (variant, "entities" if wrapped else "entity"), "sig": ["signed", variant, wrapped], "kind": "signed",
                           "variant": variant, "wrapped": wrapped})
+            # every way a source and its verification certificate can be configured
+            for form in CONFIG_FORMS[1:]:
+                cases.append({"id": "signed-%s-%s-%s" % (variant, "entities" if wrapped else "entity", form), "sig": ["signed", variant, wrapped, form],
+                              "kind": "signed", "variant": variant, "wrapped": wrapped, "form": form})
     for k in range(6 if tier == "quick" else 60):
         cases.append({"id": "roundtrip-%d" % k, "sig": ["roundtrip", k], "kind": "roundtrip", "k": k})
     return cases
@@ -381,6 +385,10 @@ def fed_pem(cert_text):
     return "".join(cert_text.split())
 
 
+CONFIG_FORMS = ["load-remote", "imp-dict-remote", "imp-classlist-extern", "imp-classlist-extern-after-plain-source", "imp-classlist-extern-before-plain-source",
+                "imp-classlist-extern-after-other-signed-source", "imp-classlist-file", "direct-extern", "direct-file"]
+
+
 class StubHTTP(object):
     def __init__(self, text):
         self.text = text
@@ -421,18 +429,59 @@ def run_signed(case, ctx, viol, counters, sigs):
         text = evil.prepend_child(evil.root, d.outer(sig).decode("utf-8") + ext).text()
     use_cert = fed.key(4)[1] if variant == "wrong-cert" else (None if variant == "signed-no-cert" else cert)
     store = new_store()
-    store.http = StubHTTP(text)
-    kw = {"url": "https://md.example.org/federation.xml"}
+    url = "https://md.example.org/federation.xml"
+    kw = {"url": url}
     if use_cert:
         kw["cert"] = use_cert
     if node_name:
         kw["node_name"] = node_name
+    form = case.get("form", "load-remote")
+    plain = mdgen.entity({"eid": "https://plain-source.example.org/md", "idp": {"keys": [("signing", 5)], "sso": [(REDIR, "https://plain-source.example.org/sso")]}})
+    other_signed = xk.sign_element(mdgen.entities([{"eid": "https://other-source.example.org/md", "idp": {"keys": [("signing", 6)], "sso": [(REDIR, "https://other-source.example.org/sso")]}}], ident="md-doc-2"),
+                                   mdgen.MD, "EntitiesDescriptor", "md-doc-2", fed.key(8)[0], "rsa-sha256", fed.cert_body(8)) if "other-signed" in form else None
+
+    class Router(object):
+        def send(self_, u, *a, **k2):
+            return StubHTTP({url: text, "https://md.example.org/plain.xml": plain, "https://md.example.org/other.xml": other_signed}[u]).send(u)
+    store.http = Router()
+    tup = (url, use_cert) if use_cert else (url,)
+    EXT = "saml2_tophat.mdstore.MetaDataExtern"
+    import os as _os
+    fpath = _os.path.join(ctx.scratch, "c16-signed-%s.xml" % abs(hash(case["id"])))
     ctx.mark()
     try:
-        store.load("remote", **kw)
+        if form == "load-remote":
+            store.load("remote", **kw)
+        elif form == "imp-dict-remote":
+            store.imp({"remote": [dict(kw)]})
+        elif form == "imp-classlist-extern":
+            store.imp([{"class": EXT, "metadata": [tup]}])
+        elif form == "imp-classlist-extern-after-plain-source":
+            store.imp([{"class": EXT, "metadata": [("https://md.example.org/plain.xml",), tup]}])
+        elif form == "imp-classlist-extern-before-plain-source":
+            store.imp([{"class": EXT, "metadata": [tup, ("https://md.example.org/plain.xml",)]}])
+        elif form == "imp-classlist-extern-after-other-signed-source":
+            store.imp([{"class": EXT, "metadata": [("https://md.example.org/other.xml", fed.key(8)[1]), tup]}])
+        elif form in ("imp-classlist-file", "direct-file"):
+            with open(fpath, "w") as fh:
+                fh.write(text)
+            if form == "imp-classlist-file":
+                store.imp([{"class": "saml2_tophat.mdstore.MetaDataFile", "metadata": [(fpath, use_cert) if use_cert else (fpath,)]}])
+            else:
+                md_ = mdstore.MetaDataFile(store.attrc, fpath, cert=use_cert, **({"node_name": node_name} if node_name else {}))
+                md_.security = store.security
+                md_.load()
+                store.metadata[fpath] = md_
+        elif form == "direct-extern":
+            md_ = mdstore.MetaDataExtern(store.attrc, url, store.security, use_cert, store.http, **({"node_name": node_name} if node_name else {}))
+            md_.load()
+            store.metadata[url] = md_
         exc = None
     except Exception as e:
         exc = e
+    finally:
+        if _os.path.exists(fpath):
+            _os.unlink(fpath)
     evs = [e for e in ctx.events() if not e.get("case", "").startswith("harness:")]
     served = sorted(store.keys())
     counters["signed_loads"] = counters.get("signed_loads", 0) + 1
@@ -443,12 +492,19 @@ def run_signed(case, ctx, viol, counters, sigs):
             sso = [s["location"] for s in store.single_sign_on_service(POOL[0], REDIR)]
         except Exception:
             sso = None
-    what = "signed metadata variant=%s root=%s: load %s, served %r, sso %r, verify events %r" % (
-        variant, ns_local[1], "raised %s" % type(exc).__name__ if exc else "ok", served, sso, [monitors.slim(e) for e in evs][:3])
-    sigs.add(("signed", variant, ns_local[1]))
+    what = "signed metadata variant=%s root=%s configured as %s: load %s, served %r, sso %r, verify events %r" % (
+        variant, ns_local[1], form, "raised %s" % type(exc).__name__ if exc else "ok", served, sso, [monitors.slim(e) for e in evs][:3])
+    sigs.add(("signed", variant, ns_local[1], form))
+    # entities of the document under test (other sources of the same configuration may legitimately be served)
+    served = [e for e in served if e in (POOL[0], POOL[1])]
+    # the accept direction is asserted where the form can express what is needed (a node name for a single EntityDescriptor root, a
+    # security context for file sources)
+    can_serve = form in ("load-remote", "imp-dict-remote", "direct-extern", "direct-file") or (wrapped and "extern" in form)
     if variant in ("tampered", "wrong-cert"):
         if served:
             viol.append({"key": "C16/entities-served-from-metadata-whose-signature-does-not-verify", "what": what})
+    elif variant == "valid" and not can_serve:
+        counters["observation:valid-signed-%s-via-%s" % ("served" if served else "not-served", form)] = 1
     elif variant == "valid":
         if not served or exc is not None:
             viol.append({"key": "C16/validly-signed-metadata-not-served", "what": what + " %r" % (exc,)})
